@@ -519,9 +519,10 @@ class ServiceDiscoveryProtocol(SOMEIPDatagramProtocol):
 
         for entry in sdhdr.entries:
             if entry.sd_type == someip.header.SOMEIPSDEntryType.OfferService:
-                asyncio.get_event_loop().call_soon(
-                    self.discovery.handle_offer, entry, addr
-                )
+                # handled in arrival order, like all other entry types: a deferred
+                # offer would be applied after a TTL expiry, a reboot or a watch
+                # request that happened later in the same loop iteration
+                self.discovery.handle_offer(entry, addr)
                 continue
 
             if entry.sd_type == someip.header.SOMEIPSDEntryType.SubscribeAck:
